@@ -38,6 +38,7 @@ func init() {
 type c12Env struct {
 	self    string
 	scratch string
+	pool    *c12Pool
 }
 
 type c12Res struct {
@@ -45,20 +46,23 @@ type c12Res struct {
 	code           int // -1: could not run / timeout
 }
 
+// cue runs one command: in a pooled worker, or (sub) in a fresh process
 func (e *c12Env) cue(dir string, stdin []byte, args ...string) c12Res {
+	return e.cueVia(false, dir, stdin, args...)
+}
+
+func (e *c12Env) cueVia(sub bool, dir string, stdin []byte, args ...string) c12Res {
+	if !sub && e.pool != nil {
+		if stdin == nil {
+			stdin = []byte{}
+		}
+		return e.pool.run(dir, stdin, args)
+	}
 	ctx, cancel := context.WithTimeout(context.Background(), 120*time.Second)
 	defer cancel()
 	cmd := exec.CommandContext(ctx, e.self, args...)
 	cmd.Dir = dir
-	cmd.Env = []string{
-		"VERIF_C12_CUE=1",
-		"HOME=" + e.scratch,
-		"CUE_CACHE_DIR=" + filepath.Join(e.scratch, "cache"),
-		"CUE_CONFIG_DIR=" + filepath.Join(e.scratch, "config"),
-		"PATH=" + os.Getenv("PATH"),
-		"GOMAXPROCS=2",
-		"CUE_REGISTRY=none.invalid",
-	}
+	cmd.Env = append(e.childEnv(), "VERIF_C12_CUE=1", "GOGC=off")
 	var out, errb bytes.Buffer
 	cmd.Stdout, cmd.Stderr = &out, &errb
 	if stdin != nil {
@@ -182,6 +186,16 @@ type c12Runner struct {
 	env *c12Env
 }
 
+// caseEnv: one case in eight runs every command in a fresh process
+type c12CaseEnv struct {
+	env *c12Env
+	sub bool
+}
+
+func (e c12CaseEnv) cue(dir string, stdin []byte, args ...string) c12Res {
+	return e.env.cueVia(e.sub, dir, stdin, args...)
+}
+
 func (rn *c12Runner) fail(k *c12Case, class, what string, extra map[string]any) {
 	rp := k.describe()
 	for a, b := range extra {
@@ -214,6 +228,10 @@ func c12ParseJSON(b []byte) (any, error) {
 // run executes one case; every check is a Direct predicate of the property
 func (rn *c12Runner) run(k *c12Case) {
 	c := rn.c
+	env := c12CaseEnv{rn.env, k.id%8 == 0}
+	if env.sub {
+		c.Count("cli.fresh-process-cases")
+	}
 	dir := filepath.Join(rn.env.scratch, fmt.Sprintf("case%06d", k.id))
 	if err := os.MkdirAll(dir, 0o777); err != nil {
 		c.Direct(false, "harness-io", err.Error(), nil)
@@ -233,18 +251,39 @@ func (rn *c12Runner) run(k *c12Case) {
 	}
 	base := append(append([]string{"export"}, inArgs...), k.exprArgs()...)
 
-	// 1. the reference: export as JSON
-	e0 := rn.env.cue(dir, stdin, append(append([]string{}, base...), "--out", "json")...)
-	if bytes.Contains(e0.stderr, []byte("panic:")) {
-		rn.fail(k, "cli-panic", "cue export --out json panicked", map[string]any{"stderr": c12Trunc(e0.stderr)})
-		return
+	// 1. the reference: export as JSON (every third case; otherwise the generator's data is
+	// the reference, which step 1 shows to be the same thing)
+	withRef := k.id%3 == 0
+	var j0 any
+	var refOut []byte
+	if withRef {
+		e0 := env.cue(dir, stdin, append(append([]string{}, base...), "--out", "json")...)
+		if bytes.Contains(e0.stderr, []byte("panic:")) {
+			rn.fail(k, "cli-panic", "cue export --out json panicked", map[string]any{"stderr": c12Trunc(e0.stderr)})
+			return
+		}
+		if k.bad != "" {
+			c.Direct(e0.code != 0, "exit-status-incomplete", "cue export --out json exits 0 on a package that is not concrete data", k.describe())
+		} else {
+			if e0.code != 0 {
+				rn.fail(k, "exit-status-concrete", fmt.Sprintf("cue export --out json exits %d on concrete data", e0.code), map[string]any{"stderr": c12Trunc(e0.stderr)})
+				return
+			}
+			var err error
+			j0, err = c12ParseJSON(e0.stdout)
+			if err != nil || !c12Equal(j0, k.val) {
+				rn.fail(k, "export-json-denotes", "cue export --out json does not denote the data of the package", map[string]any{"stdout": c12Trunc(e0.stdout)})
+				return
+			}
+			refOut = e0.stdout
+			c.Direct(true, "", "", nil)
+		}
 	}
 	if k.bad != "" {
 		c.Count("cli.bad")
 		// evaluation / concreteness fails: every encoding must exit non-zero and write nothing
-		c.Direct(e0.code != 0, "exit-status-incomplete", "cue export --out json exits 0 on a package that is not concrete data", k.describe())
 		args, outFile := k.exportArgs(base)
-		ex := rn.env.cue(dir, stdin, args...)
+		ex := env.cue(dir, stdin, args...)
 		ok := ex.code != 0 && ex.code != -1 && !bytes.Contains(ex.stderr, []byte("panic:"))
 		if !ok {
 			rn.fail(k, "exit-status-incomplete", fmt.Sprintf("cue %s exits %d on a package that is not concrete data", strings.Join(args, " "), ex.code),
@@ -261,20 +300,10 @@ func (rn *c12Runner) run(k *c12Case) {
 		}
 		return
 	}
-	if e0.code != 0 {
-		rn.fail(k, "exit-status-concrete", fmt.Sprintf("cue export --out json exits %d on concrete data", e0.code), map[string]any{"stderr": c12Trunc(e0.stderr)})
-		return
-	}
-	j0, err := c12ParseJSON(e0.stdout)
-	if err != nil || !c12Equal(j0, k.val) {
-		rn.fail(k, "export-json-denotes", "cue export --out json does not denote the data of the package", map[string]any{"stdout": c12Trunc(e0.stdout)})
-		return
-	}
-	c.Direct(true, "", "", nil)
 
 	// 2. export to the target encoding with the flag set
 	args, outFile := k.exportArgs(base)
-	ex := rn.env.cue(dir, stdin, args...)
+	ex := env.cue(dir, stdin, args...)
 	if bytes.Contains(ex.stderr, []byte("panic:")) || ex.code == -1 {
 		rn.fail(k, "cli-panic", "cue "+strings.Join(args, " ")+" panicked / timed out", map[string]any{"stderr": c12Trunc(ex.stderr)})
 		return
@@ -341,7 +370,7 @@ func (rn *c12Runner) run(k *c12Case) {
 		idir := filepath.Join(dir, "imp")
 		os.MkdirAll(idir, 0o777)
 		os.WriteFile(filepath.Join(idir, outFile), data, 0o666)
-		im := rn.env.cue(idir, nil, impArgs...)
+		im := env.cue(idir, nil, impArgs...)
 		if im.code != 0 {
 			rn.fail(k, "import-fails", fmt.Sprintf("cue %s exits %d on a file written by cue export", strings.Join(impArgs, " "), im.code),
 				map[string]any{"exported": c12Trunc(data), "stderr": c12Trunc(im.stderr)})
@@ -350,17 +379,21 @@ func (rn *c12Runner) run(k *c12Case) {
 		dir = idir
 		final = target
 	}
-	e2 := rn.env.cue(dir, nil, append([]string{"export", final, "--out", "json"}, finalArgs...)...)
+	finalIn := []string{final}
+	if filepath.Ext(final) == ".dat" {
+		finalIn = []string{"cue:", final}
+	}
+	e2 := env.cue(dir, nil, append(append(append([]string{"export"}, finalIn...), "--out", "json"), finalArgs...)...)
 	if e2.code != 0 {
 		rn.fail(k, "reexport-fails", fmt.Sprintf("cue export %s --out json exits %d after the round trip", final, e2.code),
 			map[string]any{"exported": c12Trunc(data), "stderr": c12Trunc(e2.stderr)})
 		return
 	}
 	j2, err := c12ParseJSON(e2.stdout)
-	if err != nil || !c12EqualJSON(j0, j2) {
+	if err != nil || !c12Equal(j2, k.val) || (j0 != nil && !c12EqualJSON(j0, j2)) {
 		cls := "roundtrip-" + k.enc
 		rn.fail(k, cls, "export → import → export --out json does not reproduce the original JSON",
-			map[string]any{"exported": c12Trunc(data), "original": c12Trunc(e0.stdout), "after": c12Trunc(e2.stdout)})
+			map[string]any{"exported": c12Trunc(data), "original": c12Trunc(refOut), "after": c12Trunc(e2.stdout)})
 		return
 	}
 	c.Direct(true, "", "", nil)
@@ -434,8 +467,10 @@ func (k *c12Case) sniff(data []byte) string {
 func runC12(c *Cfg) {
 	root := NewRng(c.Seed).Sub()
 	// ---- TOML codec in-process (Lean model + specification) ----
+	t0 := time.Now()
 	c12TomlTrees(c, root.Sub(), c.Pick(2500, 40000))
 	c12TomlDocs(c, root.Sub(), c.Pick(2500, 40000))
+	fmt.Fprintf(os.Stderr, "C12: toml codec part %.1fs\n", time.Since(t0).Seconds())
 	if c.Focus {
 		// failing-input search: denser codec sweep and a CLI sweep restricted to TOML
 		c12TomlTrees(c, root.Sub(), c.Pick(4000, 20000))
@@ -455,12 +490,19 @@ func runC12(c *Cfg) {
 	defer os.RemoveAll(scratch)
 	env := &c12Env{self: self, scratch: scratch}
 	// the binary must behave as cue
-	if v := env.cue(scratch, nil, "version"); v.code != 0 || !bytes.Contains(v.stdout, []byte("cue version")) {
+	if v := env.cueVia(true, scratch, nil, "version"); v.code != 0 || !bytes.Contains(v.stdout, []byte("cue version")) {
 		c.Direct(false, "harness-io", "the re-executed harness does not behave as the cue command: "+c12Trunc(v.stdout)+c12Trunc(v.stderr), nil)
 		return
 	}
+	pool, err := newC12Pool(env, 16)
+	if err != nil {
+		c.Direct(false, "harness-io", "cannot start workers: "+err.Error(), nil)
+		return
+	}
+	env.pool = pool
+	defer pool.close()
 	rn := &c12Runner{c: c, env: env}
-	n := c.Pick(420, 9000)
+	n := c.Pick(400, 8000)
 	cr := root.Sub()
 	cases := make([]*c12Case, 0, n)
 	for i := 0; i < n; i++ {
